@@ -259,7 +259,7 @@ func init() {
 		ID: "C13", Level: "exploration", Variant: "N", Design: "DESIGN.md §5 C13",
 		Rule:      "Each run draws an archive from a member-list model (0..8 members; names of 1..16 bytes with or without trailing '/', sizes 0, 1, odd, even, up to 64 KiB; blank or filled numeric columns; binary data incl. bytes that look like headers; odd last member with or without pad byte), stores it on a simulated disk with a strict or eof-eager ReaderAt profile, and interleaves one iterator task with one reader task per returned member (Read, Seek, ReadAt, full re-read) at every disk read. A quarter of the runs make a byte range of the disk fail with EIO.",
 		Run:       runC13,
-		QuickRuns: 100000, QuickSecs: 30, ThoroughRuns: 4_000_000, ThoroughSecs: 900,
+		QuickRuns: 400000, QuickSecs: 30, ThoroughRuns: 4_000_000, ThoroughSecs: 900,
 		Components: map[string]interface{}{
 			"real": []string{"pault.ag/go/debian/deb (LoadAr, Ar.Next, ArEntry.Data)", "io.SectionReader (stdlib)"},
 			"stub": []string{"simdisk.Disk (io.ReaderAt: strict / eof-eager end-of-file behaviour, EIO on a byte range)"},
